@@ -36,21 +36,18 @@ def run(ctx):
     ]
     real = []
 
-    def in_batch(pt, R=5, B=2, C=2):      # number of records of the batch that worker w of group g gets
-        b = (pt[0] - 1) * C + pt[1]
-        return max(0, min(b * B, R) - (b - 1) * B)
-
     for kill_at in points:
         rc, hung, names = real_mp_tier(ctx, 5, 2, 2, kill_at)
-        real.append({"kill_at(group,worker,put#)": kill_at, "rc": rc, "hung": hung, "written": names})
+        killed = real_mp_tier.killed
+        real.append({"kill_at(group,worker,put#)": kill_at, "killed": killed, "rc": rc, "hung": hung, "written": names})
         ctx.evaluations += 1
         full = names == [RN(i) for i in range(1, 6)]
         if hung:
             ctx.violation("realmp_hang", real[-1])
         elif rc == 0 and not full:
             ctx.violation("realmp_success_with_missing_records", real[-1])
-        elif rc == 0 and kill_at[2] <= in_batch(kill_at):
-            # the worker was killed IN its batch (at one of its result puts or at its end-of-batch marker)
+        elif rc == 0 and killed:
+            # the worker was really killed, at one of its own puts (a result or its end-of-batch marker): IN its batch
             ctx.violation("realmp_success_although_a_worker_was_killed_in_its_batch", real[-1])
         elif rc not in (0, 1):
             ctx.violation("realmp_unexpected_exit", real[-1])
